@@ -78,3 +78,42 @@ pub fn open_ro_cut(_r: &Region) -> Result<File> {
     anydb_verif_platform::assume(false);
     Err(Error::RegionNotFound)
 }
+
+/// Contract-mode database whose single region is registered under `name` (import harnesses look
+/// it up by name); see `api_contract_db`.
+pub fn api_contract_db_named(buf: *mut u8, cap: usize, region_len: usize, name: &str) -> (Database, Region) {
+    let f = &mut pfs::state().files[pfs::DATA];
+    f.buf = buf;
+    f.cap = cap;
+    f.len = cap;
+    let db = mk_db(cap, 2);
+    let r = crate::region::verif_region::mk_in_db(
+        &db, 0, crate::region_metadata::verif_meta::mk_meta(name, 0, region_len, cap, 0), (usize::MAX, 0));
+    layout_of(&db).insert_region(0, &r);
+    crate::regions::verif_regions::add(regions_of(&db), name, &r, true);
+    anydb_verif_platform::sync::set_cut(db.0.layout.verif_id());
+    (db, r)
+}
+
+/// Stub for `Database::remove_region_if_exists` in import harnesses: records the request as a ghost
+/// event (Pause 77) instead of running the allocator.
+pub fn remove_region_if_exists_stub(_db: &Database, _id: &str) -> Result<()> {
+    anydb_verif_platform::ghost::log(anydb_verif_platform::ghost::K::Pause, 77, 0, 0);
+    Ok(())
+}
+pub fn ghost_removals() -> usize {
+    let l = anydb_verif_platform::ghost::get();
+    let mut n = 0;
+    anydb_verif_platform::unroll20!(i, {
+        if i < l.n && l.k[i] == anydb_verif_platform::ghost::K::Pause && l.a[i] == 77 {
+            n += 1;
+        }
+    });
+    n
+}
+pub fn ghost_clear() {
+    anydb_verif_platform::ghost::clear();
+}
+pub fn ghost_writes() -> usize {
+    anydb_verif_platform::ghost::count(anydb_verif_platform::ghost::K::Write)
+}
